@@ -99,7 +99,17 @@ def rule_xconf(ctx):
                     changed = True
                     continue
                 cs = callers.get(ka[k], set())
-                if f_ and not f_.get("exported") and "impl_trait_def" not in f_ and cs and cs <= gated_set:
+                st_ = (f_.get("impl_self") or "").split("<")[0] if f_ else ""
+                adt_ = fa.adts.get(st_) if st_ else None
+                # a trait impl counts like a helper when it is for a private type of the crate (`impl From<PackageType> for
+                # CombinedNameStyle`): only the crate's own (gated) code can call it
+                private_impl = bool(f_) and "impl_trait_def" in f_ and adt_ is not None and adt_.get("vis") != "pub" and not adt_.get("reachable")
+                if f_ and not f_.get("exported") and ("impl_trait_def" not in f_ or private_impl) and cs and cs <= gated_set:
+                    gated_set.add(k)
+                    changed = True
+                elif private_impl and st_ in fa.adts and st_ not in fb.adts and cs <= gated_set:
+                    # an impl (derived Clone / Copy / Debug ..) of a private type that itself exists under the larger feature
+                    # set only: nothing the configurations share can name the type
                     gated_set.add(k)
                     changed = True
                 elif not f_ and fa.bodies[ka[k]].kind in ("const", "static") and cs and cs <= gated_set:
